@@ -12,6 +12,7 @@ sim_s, end, faults: {}, probes: {}, nstates, state_hashes: [...], nontrivial: bo
 choices: [...], wl_fp: str}
 """
 import faulthandler
+import fnmatch
 import hashlib
 import json
 import os
@@ -50,7 +51,7 @@ def match_known(known, prop, sig):
         if e['property'] != prop:
             continue
         pat = e['signature']
-        if pat == sig or (pat.endswith('*') and sig.startswith(pat[:-1])):
+        if pat == sig or fnmatch.fnmatchcase(sig, pat):
             return e
     return None
 
@@ -68,6 +69,10 @@ def _exec_one(scen, case, seed, choices):
     except BaseException as exc:       # noqa
         res = {'error': 'shutdown failed: %r' % (exc,), 'fatal': True}
     state.K = None
+    # garbage of this run (exception/frame cycles holding Connection objects) must be finalised now,
+    # while no kernel is current: collected later it would close descriptors of the next run
+    import gc
+    gc.collect()
     return res
 
 
